@@ -293,3 +293,10 @@ func AssertEqStr(id string, a, b string) { Assert(id, a == b) }
 
 // TimeLE reports a <= b (not b.Before(a)).
 func TimeLE(a, b time.Time) bool { return !b.Before(a) }
+
+// JSONMap decodes a JSON object of string values.
+func JSONMap(b []byte) map[string]string {
+	m := map[string]string{}
+	_ = json.Unmarshal(b, &m)
+	return m
+}
